@@ -13,7 +13,8 @@ EXPLANATION = (
     "(spec/layout.json) and the specification's BMP/TLV definition tables (spec/bmp.json). "
     "Control fields are the const-evaluated CLASS/INSTR of the ZvtCommand impls; APDU framing is "
     "checked on the blanket ZvtSerializer impl. Not decided: that each leaf encoding produces "
-    "the specified bytes for every value (value arithmetic; see C16/C17 clauses).")
+    "the specified bytes for every value (value arithmetic; see C16/C17 clauses). " 
+    "APDU length field: the forms written and read by length::Adpu and the transport (short below 0xFF, FF + u16 LE otherwise) are compared with the specification's (clauses shared with C16-b / C04-d).")
 RULE = ("C03-a: per struct, encoder rows == spec rows (ordered) and decoder rows == spec rows "
         "(positional ordered, tagged as a set), compared as canonical wire descriptors "
         "(field, tag, tag encoding, prefix style, value encoding, cardinality); every BMP row "
@@ -27,7 +28,7 @@ def site_of(body):
     return body.raw.get("sp")
 
 
-def run(ctx, chk):
+def _run_own(ctx, chk):
     zvt = ctx.crate("zvt")
     spec = ctx.spec("layout.json")
     tables = ctx.spec("bmp.json")
@@ -251,3 +252,18 @@ def tag_is_class_instr(b, tr, operand):
     if names != ["zvt_builder::ZvtCommand::CLASS", "zvt_builder::ZvtCommand::INSTR"]:
         return False, "array is %s" % names
     return True, ""
+
+
+def run(ctx, chk):
+    _run_own(ctx, chk)
+    # APDU framing of every command: the length field's forms are part of the specified wire layout
+    # (chapter 3: one byte below 0xFF, otherwise FF + 2 bytes little endian) - the Adpu instances of the
+    # C16-b / C04-d clauses are included as C03-c
+    import rules_c16
+    import rules_c04
+    from report import Sub
+    sub = Sub(chk, "C03-c", lambda r: r.startswith("C16-b/"), instance_filter=lambda i: "Adpu" in str(i))
+    rules_c16.run(ctx, sub)
+    sub2 = Sub(chk, "C03-c", lambda r: r in ("C04-d/writer-header", "C04-d/reader-header", "C04-d/adpu", "C04-d/marker-constant"))
+    rules_c04.run(ctx, sub2)
+    chk.floor("APDU length-field obligations (shared with C16/C04)", sub.count + sub2.count, 9)
